@@ -505,8 +505,9 @@ class Case:
                 self.outcome[w] = tuple(e[0:1] + e[2:4])
                 self.completion_order.append(w)
                 merged = j > 0 and log[j - 1][0] == "http_ret" and log[j - 1][1] == w
-                if e[0] == "exc" and e[2] == "CancelledError":
-                    self.how[w] = "cancel"
+                if (e[0] == "exc" and e[2] == "CancelledError") or \
+                        (cur[0] == "cancel" and cur[1] == w and e[0] == "exc" and e[4] == "CancelledError"):
+                    self.how[w] = "cancel"     # (a KeyError raised while handling the cancellation included)
                 elif cur[0] == "timeout" or (cur[0] == "race" and e[0] == "exc" and "TimeoutError" in (e[2], e[4])):
                     self.how[w] = "timeout"
                     self.events.append(("timeout", w))
@@ -639,9 +640,9 @@ def oracle(case):
                 if n != 1:
                     errs.append(("C03:companion:unsolicited-not-once",
                                  "event T%d reached the listener %d times" % (m["tag"], n)))
-    # MRP: a message under a key whose requests have all ENDED (timed out - or returned - strictly before it
-    # arrived) answers no outstanding request any more: it must reach the subscribed listeners exactly once.
-    # (requests abandoned by cancellation are left out: see the report - the unchanged code keeps their entry)
+    # MRP: a message under a key whose requests have all ENDED (timed out, returned or were cancelled strictly
+    # before it arrived) answers no outstanding request any more: it must reach the subscribed listeners
+    # exactly once.  Swallowed after a cancellation = regression of pyatv fix 581a057 (own key).
     if t == "mrp":
         for m in case.msgs:
             mm = m["m"]
@@ -657,15 +658,17 @@ def oracle(case):
                 continue
             if any(case.done_at.get(w, 10 ** 9) >= m["at"] for w in group):
                 continue            # somebody is (or may just have been) waiting under that key
-            if any(case.how.get(w) == "cancel" or not (case.outcome[w][0] == "ret" or case.outcome[w][1] == "TimeoutError")
+            if any(not (case.outcome[w][0] == "ret" or case.outcome[w][1] in ("TimeoutError", "CancelledError"))
                    for w in group):
                 continue
+            cancelled = any(case.how.get(w) == "cancel" for w in group)
             ty = case.obs["types"][mm.get("type", 0)]
             for who in (case.obs["listeners"] or {}).get(ty, []):
                 n = sum(1 for (x, y, g) in case.listens if x == who and g == m["tag"])
                 if n != 1:
                     ended = sorted((w, case.how.get(w)) for w in group)
-                    errs.append(("C03:mrp:late-answer-not-dispatched",
+                    errs.append(("C03:mrp:cancelled-request-entry-leaks" if cancelled
+                                 else "C03:mrp:late-answer-not-dispatched",
                                  "message T%d arrived after the request(s) under its identifier had ended %s; "
                                  "listener %s of type %d saw it %d times" % (m["tag"], ended, who, ty, n)))
     # a request whose answer never arrived before its timer fired gets a timeout error
